@@ -96,7 +96,8 @@ def acRefineBlock (dd : DDerived) (st : Store) (c blk ss se al : Nat) (eobrun : 
       fuel := fuel - 1
       match Huff.decode dd bits with
       | none => return .error "AC refinement: bad Huffman code"
-      | some (sym, _, rest) =>
+      | some (_, true, _) => return .error "AC refinement: bit pattern that is no code of the table"
+      | some (sym, false, rest) =>
         bits := rest
         let mut r := sym / 16
         let s := sym % 16
@@ -155,7 +156,8 @@ def acFirstBlock (dd : DDerived) (st : Store) (c blk ss se al : Nat) (eobrun : N
     fuel := fuel - 1
     match Huff.decode dd bits with
     | none => return .error "AC first: bad Huffman code"
-    | some (sym, _, rest) =>
+    | some (_, true, _) => return .error "AC first: bit pattern that is no code of the table"
+    | some (sym, false, rest) =>
       bits := rest
       let r := sym / 16
       let s := sym % 16
@@ -250,6 +252,9 @@ def decodeScan (f : Frame) (tabs : Tables) (sc : Scan) (ri : Nat) (intervals : L
                   k := k + 1
             else if sc.ss == 0 then
               if sc.ah == 0 then
+                match Huff.decode (dcd.getD i none |>.get!) bits with
+                | some (_, true, _) => return .error "DC first: bit pattern that is no code of the table"
+                | _ => pure ()
                 match LL.decodeItem (dcd.getD i none |>.get!) bits with
                 | none => return .error "DC first: bad code or out of data"
                 | some (diff, rest) =>
